@@ -234,6 +234,22 @@ def make_subs(w, t, idx):
     return subs
 
 
+class DuckStream:
+    """a seekable stream that only has read/seek/tell (no seekable()/readable())"""
+
+    def __init__(self, inner):
+        self._i = inner
+
+    def read(self, n=-1):
+        return self._i.read(n)
+
+    def seek(self, where, whence=0):
+        return self._i.seek(where, whence)
+
+    def tell(self):
+        return self._i.tell()
+
+
 def _is_victim(w, idx):
     v = (w.scn.get('faults') or {}).get('only_key')
     return v is None or v == idx
@@ -261,10 +277,12 @@ def submit_transfer(w, idx):
                 f.write(info['expected'])
             fileobj = p
         else:
-            fileobj = SourceStream(sched, data, seekable=(src == 'seekable'),
+            fileobj = SourceStream(sched, data, seekable=(src in ('seekable', 'duck')),
                                    start=t.get('start', 0), name=f'src{idx}',
                                    fault=('src:read' in faults and _is_victim(w, idx)))
             info['stream'] = fileobj
+            if src == 'duck':
+                fileobj = DuckStream(fileobj)
         fut = m.upload(fileobj, BUCKET, info['key'], extra_args=extra, subscribers=subs)
     elif op == 'download':
         key = t['key']
@@ -333,6 +351,9 @@ def user_script(w):
         if not sched.inline:
             sched.spawn(functools.partial(_injector, w, inj), f"inj-{inj['kind']}",
                         role='inject', prio=1)
+    if not sched.inline:
+        sched.spawn(functools.partial(_auditor, w), 'auditor', role='audit', prio=2, idle=True,
+                    first_op=('audit', None, lambda: w.script_done))
     m = build_manager(w)
     if script == 'wait':
         for i in range(n):
@@ -409,12 +430,32 @@ def user_script(w):
     w.script_done = True
 
 
+def _auditor(w):
+    """Runs when nothing else can: the outcome a finished future reports must not change any more."""
+    sched = w.sched
+    sched.current.idle = False
+    w.audit = {}
+    for i, fut in enumerate(w.futures):
+        if not fut.done():
+            w.audit[i] = ('notdone', None)
+            continue
+        try:
+            fut.result()
+            w.audit[i] = ('ok', None)
+        except AbortExecution:
+            raise
+        except BaseException as e:  # noqa
+            w.audit[i] = ('exc', e)
+    sched.emit('audit', outcomes={i: (o[0] if o[0] != 'exc' else type(o[1]).__name__) for i, o in w.audit.items()})
+
+
 def _injector(w, inj):
     sched = w.sched
     kind = inj['kind']
     if kind == 'cancel':
         tgt = inj.get('target', 0)
         sched.point('inject.cancel', tgt, enabled=lambda: len(w.futures) > tgt)
+        sched.current.prio = 0          # started: from now on an ordinary user thread
         sched.emit('inject', kind='cancel', target=tgt,
                    done_before=w.futures[tgt].done())
         w.futures[tgt].cancel()
@@ -422,6 +463,7 @@ def _injector(w, inj):
     elif kind == 'shutdown_cancel':
         sched.point('inject.shutdown', 0, enabled=lambda: w.manager is not None and
                     len(w.futures) >= inj.get('after', len(w.scn['transfers'])))
+        sched.current.prio = 0
         sched.emit('inject', kind='shutdown_cancel', msg=inj.get('msg', ''),
                    done_before=[f.done() for f in w.futures])
         try:
